@@ -49,6 +49,36 @@ func c11Paths(maxComps int) []string {
 		}
 	}
 	rec(nil)
+	// a sibling of the root whose name begins with the root's name ("R" / "Ra"): a containment test by
+	// string prefix accepts it. One "Ra" component at any position of every path of <= 3 components.
+	short := len(out)
+	if maxComps > 4 {
+		short = 0
+		for i, p := range out {
+			if strings.Count(strings.TrimPrefix(p, "/"), "/") <= 2 {
+				short = i + 1
+			}
+		}
+	}
+	seen := map[string]bool{}
+	for _, p := range out[:short] {
+		abs := strings.HasPrefix(p, "/")
+		parts := strings.Split(strings.TrimPrefix(p, "/"), "/")
+		if len(parts) > 3 {
+			continue
+		}
+		for i := 0; i <= len(parts); i++ {
+			q := append(append(append([]string(nil), parts[:i]...), "Ra"), parts[i:]...)
+			np := strings.Join(q, "/")
+			if abs {
+				np = "/" + np
+			}
+			if !seen[np] {
+				seen[np] = true
+				out = append(out, np)
+			}
+		}
+	}
 	return out
 }
 
@@ -63,7 +93,7 @@ func mkFixture(base string) *c11Fixture {
 	os.RemoveAll(base)
 	fx.resetRoot()
 	// sentinel names come from the same alphabet so that a lexical escape would hit them
-	for _, d := range []string{filepath.Join(base, "ftp", "a"), filepath.Join(base, "ftp", "b"), filepath.Join(base, "a"), filepath.Join(base, "b"), filepath.Join(base, "ftp", "a", "b")} {
+	for _, d := range []string{filepath.Join(base, "ftp", "a"), filepath.Join(base, "ftp", "b"), filepath.Join(base, "a"), filepath.Join(base, "b"), filepath.Join(base, "ftp", "a", "b"), filepath.Join(base, "ftp", "Ra"), filepath.Join(base, "ftp", "Ra", "a")} {
 		os.MkdirAll(d, 0755)
 		os.WriteFile(filepath.Join(d, "f"), []byte("SENTINEL "+d), 0644)
 		os.WriteFile(filepath.Join(d, "a"), []byte("SENTINEL-a "+d), 0644)
